@@ -4,6 +4,9 @@ import PgVerif.Spec.SPPF
 import PgVerif.Model.Pos
 import PgVerif.Spec.Viable
 import PgVerif.Model.LineCol
+import PgVerif.Model.TableGen
+import PgVerif.Spec.LR1
+import PgVerif.Generated.Source
 /-!
 `pgmodel`: line-protocol driver. One request per line (a command word followed
 by natural numbers), one reply line per request. Context commands (`grammar`,
@@ -124,8 +127,34 @@ def showOutcome : Outcome → String
   | .crash => "crash"
   | .outOfFuel => "fuel"
 
+def rdGGrammar : Rd GGrammar := do
+  let nnt ← rd
+  let prods ← rdList (do
+    let lhs ← rd
+    let rhs ← rdList (decSym <$> rd)
+    let prior ← rd; let assoc ← rd; let nops ← rd; let nopse ← rd
+    pure ({ lhs := lhs, rhs := rhs, prior := prior, assoc := assoc, nops := nops != 0, nopse := nopse != 0 } : ProdInfo))
+  let terms ← rdList (do
+    let prior ← rd; let weight ← rd; let strLike ← rd; let finish ← rd
+    let fqn ← rdList rd
+    pure ({ prior := prior, weight := weight, strLike := strLike != 0, finish := finish, fqn := fqn } : TermInfo))
+  pure { prods := prods, nnt := nnt, nterm := terms.length, terms := terms }
+
+def encAction : Action → List Nat
+  | .shift s => [0, s]
+  | .reduce p => [1, p]
+  | .accept => [2, 0]
+
+def encGenTable (t : GenTable) : List Nat :=
+  [t.states.length] ++ (t.states.zip t.finish).flatMap (fun (s, ff) =>
+    [encSym s.sym, s.actions.length] ++
+    (s.actions.zip ff).flatMap (fun (c, f) =>
+      [c.1, if f then 1 else 0, c.2.length] ++ c.2.flatMap encAction) ++
+    [s.gotos.length] ++ s.gotos.flatMap (fun x => [x.1, x.2]))
+
 structure St where
   g : Grammar := default
+  gg : GGrammar := default
   T : Option Table := none
   inp : Option Input := none
   F : Forest := []
@@ -138,6 +167,36 @@ def handle (st : St) (cmd : String) (args : List Nat) : St × String :=
     match rdGrammar.run args with
     | some (g, _) => ({ st with g := g }, "ok")
     | none => (st, "bad-grammar")
+  | "ggrammar" =>
+    match rdGGrammar.run args with
+    | some (g, _) => ({ st with gg := g }, "ok")
+    | none => (st, "bad-ggrammar")
+  | "tablegen" =>
+    -- tablegen <lr1> <prefer_shifts> <pse> <start_prod> <lexdis> <fuel>
+    match args with
+    | [lr1, ps, pse, sp, lexdis, fuel] =>
+      (st, match createTable st.gg { lr1 := lr1 != 0, preferShifts := ps != 0, preferShiftsOverEmpty := pse != 0,
+                                     startProd := sp } Src.sortW1 Src.sortW2 (lexdis != 0) fuel with
+        | some t => "table " ++ natList (encGenTable t)
+        | none => "table fuel")
+    | _ => (st, "bad-tablegen")
+  | "lr1ref" =>
+    match args with
+    | [sp, fuel] =>
+      (st, match canonicalLR1 st.gg sp fuel with
+        | some cs => s!"lr1ref {cs.length}"
+        | none => "lr1ref fuel")
+    | _ => (st, "bad-lr1ref")
+  | "faithful" =>
+    match st.T, args with
+    | some T, [sp, lalr, fuel] =>
+      (st, match faithful st.gg T sp (lalr != 0) fuel with
+        | some .ok => "faithful ok"
+        | some (.missing s a k p) => s!"faithful missing state={s} symbol={a} kind={k} prod={p}"
+        | some (.extra s a p) => s!"faithful extra state={s} terminal={a} prod={p}"
+        | none => "faithful fuel")
+    | _, _ => (st, "bad-faithful")
+  | "firstsets" => (st, "firstsets " ++ natList (firstSets st.gg))
   | "table" =>
     match rdTable.run args with
     | some (T, _) => ({ st with T := some T }, "ok")
